@@ -4,8 +4,16 @@
 //! Each task of a harness body runs on its own OS thread. The repository's `vp_sched!`
 //! hook (feature `verif-hooks`) blocks the thread until the controller grants it; exactly
 //! one task runs between two scheduling points, so an execution is a sequence of segments
-//! and a schedule is the list of choices made at each point. No hook sits inside a lock
-//! guard scope, so the granted task always reaches its next point or finishes.
+//! and a schedule is the list of choices made at each point.
+//!
+//! Locks: the `std::sync::RwLock`s of cascette-cache are replaced (same feature) by a wrapper
+//! whose acquire is a scheduling point followed by a try-lock loop and whose guard drop is a
+//! scheduling point. A failed try-lock reports `rwlock.blocked`: the task is then not enabled
+//! until some task releases a lock (or finishes), so hooks may sit inside guard scopes, a
+//! narrowed lock scope automatically exposes its new window, and a state in which every
+//! unfinished task is blocked is reported as a deadlock. Locks that are not wrapped (DashMap
+//! shards, parking_lot in cascette-client-storage) are only safe because no hook sits inside
+//! their guard scopes: the granted task always reaches its next point or finishes.
 
 use crate::report::Report;
 use serde_json::json;
@@ -18,6 +26,8 @@ enum TStatus {
     Idle,
     Running,
     Parked(&'static str),
+    /// failed to acquire a lock held by another task; not enabled until some lock is released
+    Blocked,
     Done,
 }
 
@@ -54,9 +64,22 @@ impl Controller {
     fn park(&self, id: usize, site: &'static str) {
         let mut g = self.inner.lock().unwrap();
         if g.free_run {
+            if site == "rwlock.blocked" {
+                // draining a hung or deadlocked execution: do not spin on the lock
+                drop(g);
+                std::thread::sleep(Duration::from_millis(1));
+            }
             return;
         }
-        g.status[id] = TStatus::Parked(site);
+        if site == "rwlock.release" {
+            // a lock became free: every task blocked on a lock may retry
+            for s in g.status.iter_mut() {
+                if *s == TStatus::Blocked {
+                    *s = TStatus::Parked("rwlock.retry");
+                }
+            }
+        }
+        g.status[id] = if site == "rwlock.blocked" { TStatus::Blocked } else { TStatus::Parked(site) };
         if g.granted == Some(id) {
             g.granted = None;
         }
@@ -71,6 +94,12 @@ impl Controller {
         let mut g = self.inner.lock().unwrap();
         g.status[id] = TStatus::Done;
         g.panicked[id] = panic;
+        // guards dropped while unwinding do not announce themselves
+        for s in g.status.iter_mut() {
+            if *s == TStatus::Blocked {
+                *s = TStatus::Parked("rwlock.retry");
+            }
+        }
         if g.granted == Some(id) {
             g.granted = None;
         }
@@ -247,6 +276,7 @@ impl Runner {
         let mut prev: Option<usize> = None;
         let mut hung = false;
         let mut diverged: Option<String> = None;
+        let mut deadlock: Option<String> = None;
         loop {
             // wait until nobody is running (all parked or done)
             let deadline = Instant::now() + WATCHDOG;
@@ -285,6 +315,11 @@ impl Runner {
                 }
             }
             if enabled.is_empty() {
+                if g.status.iter().any(|s| *s == TStatus::Blocked) {
+                    deadlock = Some(format!("every unfinished task is blocked on a lock: {:?}", g.status));
+                    g.free_run = true;
+                    ctl.cv.notify_all();
+                }
                 break; // all done
             }
             let i = points.len();
@@ -309,7 +344,7 @@ impl Runner {
             ctl.cv.notify_all();
         }
         // if we let tasks run free (hang/divergence) give them a moment; a truly stuck pool is replaced
-        if hung || diverged.is_some() {
+        if hung || diverged.is_some() || deadlock.is_some() {
             let deadline = Instant::now() + Duration::from_secs(2);
             let mut g = ctl.inner.lock().unwrap();
             while g.status.iter().any(|s| !matches!(s, TStatus::Done)) && Instant::now() < deadline {
@@ -331,6 +366,8 @@ impl Runner {
             Err(("hang".to_string(), format!("no task arrived at a scheduling point within {WATCHDOG:?}; ops so far: {ops:?}")))
         } else if let Some(d) = &diverged {
             Err(("diverged".to_string(), d.clone()))
+        } else if let Some(d) = &deadlock {
+            Err(("deadlock".to_string(), format!("{d}; ops so far: {ops:?}")))
         } else if let Some(p) = panics.first() {
             Err(("panic".to_string(), format!("task panicked: {p}")))
         } else {
